@@ -763,16 +763,32 @@ impl Execute for ast::CoprocessCommand {
 
         let body = self.body.clone();
         let join_handle = tokio::spawn(async move {
+            let mut stderr = child_params.stderr(&child_shell);
             let pipeline_context = PipelineExecutionContext {
                 shell: commands::ShellForCommand::ParentShell(&mut child_shell),
                 process_group_id: None,
             };
-            let spawn_result = body
+            let result = match body
                 .execute_in_pipeline(pipeline_context, child_params)
-                .await?;
-            match spawn_result.wait().await? {
-                ExecutionWaitResult::Completed(result) => Ok(result),
-                ExecutionWaitResult::Stopped(_) => Ok(ExecutionResult::stopped()),
+                .await
+            {
+                Ok(spawn_result) => match spawn_result.wait().await {
+                    Ok(ExecutionWaitResult::Completed(result)) => Ok(result),
+                    Ok(ExecutionWaitResult::Stopped(_)) => Ok(ExecutionResult::stopped()),
+                    Err(error) => Err(error),
+                },
+                Err(error) => Err(error),
+            };
+
+            // Handle errors within the coprocess's own shell (as for a subshell), so they are
+            // reported when they happen and are not mistaken by a later `wait` for a failure
+            // to wait.
+            match result {
+                Ok(result) => Ok(result),
+                Err(error) => {
+                    let _ = child_shell.display_error(&mut stderr, &error);
+                    Ok(error.into_result(&child_shell))
+                }
             }
         });
 
